@@ -98,6 +98,30 @@ def render_checks(acc, f, cs, part):
                 for nm, g_, e_ in zip(('bin', 'hex', 'base_repr', 'bin_dot'), got_l, exp_l):
                     if e_ is not None and g_ != e_:
                         bad('render', '%s() of a 2-d object in layout %s is not in logical order: %r vs %r' % (nm, layout, g_[:2], e_[:2]), option='2d_' + layout)
+        # configured prefixes and unrelated options: bin() without a prefix argument uses the configured one, an explicit argument wins,
+        # hex() and base_repr() never depend on the binary prefix (nor bin() on the hex prefix); and rendering never changes the codes
+        for opts in ({'bin_prefix': '0b'}, {'bin_prefix': 'b'}, {'bin_prefix': 'B', 'hex_prefix': '0X'}, {'hex_prefix': 'x'}, {'dtype_notation': 'Q', 'bin_prefix': '0b'},
+                     {'array_op_method': 'raw', 'hex_prefix': '0x'}):
+            xc = Fxp(np.array(cs, dtype=object if n >= 64 else np.int64), f.signed, n, f.n_frac, raw=True, **opts)
+            bp, hp = opts.get('bin_prefix') or '', opts.get('hex_prefix', '0x')
+            sc = Fxp(cs[0], f.signed, n, f.n_frac, raw=True, **opts)
+            got_c = ([str(t) for t in xc.bin()], [str(t) for t in xc.bin(prefix='0b')], [str(t) for t in xc.hex()], [str(t) for t in xc.hex(prefix='0x')],
+                     [str(t) for t in xc.base_repr(2)], sc.bin(), sc.hex())
+            exp_c = ([bp + b for b in ex_b], ['0b' + b for b in ex_b], [hp + h for h in ex_h], ['0x' + h for h in ex_h], [sign_magnitude(c, 2) for c in cs],
+                     bp + ex_b[0], hp + ex_h[0])
+            acc.transitions += 7
+            acc.evaluations += 5 * len(cs) + 2
+            acc.dim('render_config', '+'.join(sorted(opts)), len(cs))
+            for nm, g_, e_ in zip(('bin()', "bin(prefix='0b')", 'hex()', "hex(prefix='0x')", 'base_repr(2)', 'scalar bin()', 'scalar hex()'), got_c, exp_c):
+                if g_ != e_:
+                    i = [j for j in range(len(e_)) if g_[j] != e_[j]][0] if isinstance(e_, list) and len(g_) == len(e_) else 0
+                    bad('render', '%s under configuration %s gives %r, expected %r' % (nm, opts, g_[i] if isinstance(g_, list) else g_, e_[i] if isinstance(e_, list) else e_),
+                        option='config')
+                    break
+            if codes(xc) != list(cs):
+                bad('render', 'rendering changed the stored codes under configuration %s' % (opts,), option='purity')
+        if codes(x) != list(cs):
+            bad('render', 'rendering changed the stored codes: %s...' % codes(x)[:3], option='purity')
         acc.outcome('rendered', len(cs))
     except Exception as e:
         acc.violation('exception', case, '%s rendering raised %r' % (f.dtype, e), {'part': part, 'aspect': 'render'})
